@@ -44,6 +44,10 @@ Section LT.
   Variable max_depth : Z.
   Hypothesis FS_ok : forall f content, fs_lookup FS f = Some (FFile content) -> bytes_ok content.
 
+  (* a property of single tokens that every step establishes (and error tokens have): carried to the whole stream *)
+  Variable Q : ltoken -> Prop.
+  Hypothesis Q_err : forall tk, lt_tok tk = TkError -> Q tk.
+
   Notation lex_step := (lex_step ScannerCert.the_tables yy_rule_can_match_eol yy_actions atof FS incdir incf max_depth).
   Notation lex_buf := (lex_buf ScannerCert.the_tables yy_rule_can_match_eol yy_actions atof FS incdir incf max_depth).
   Notation lex_files := (lex_files FS).
@@ -66,7 +70,7 @@ Section LT.
     match res with
     | SCont st' b' | STok _ st' b' =>
         cond_ok st' /\ l_names st' = l_names st /\ (length (b_rest b') < length (b_rest b))%nat /\ bytes_ok (b_rest b')
-    | SStop toks stop _ _ => stop = StopError /\ ends_error toks
+    | SStop toks stop _ _ => stop = StopError /\ exists tk, toks = [tk] /\ lt_tok tk = TkError
     | SIncl st' files _ b' =>
         cond_ok st' /\ length (l_names st') = S (length (l_names st)) /\ depth st <> max_depth /\
         (length (b_rest b') < length (b_rest b))%nat /\ bytes_ok (b_rest b')
@@ -75,7 +79,7 @@ Section LT.
   Lemma stop_error_ok st b st0 line err : step_ok st b (stop_error st0 line err).
   Proof.
     unfold stop_error. destruct (emit st0 line TkError err) as [tk st'] eqn:E. cbn [step_ok]. split; [reflexivity|].
-    exists [], tk. split; [reflexivity|]. pose proof (emit_tok st0 line TkError err) as H. rewrite E in H. apply H.
+    exists tk. split; [reflexivity|]. pose proof (emit_tok st0 line TkError err) as H. rewrite E in H. apply H.
   Qed.
 
   Lemma lex_step_ok st b : cond_ok st -> b_rest b <> [] -> bytes_ok (b_rest b) -> step_ok st b (lex_step st b).
@@ -136,13 +140,17 @@ Section LT.
   (* ---- a whole buffer ---- *)
   (* what a scan (of a buffer, of the files of a frame) can answer *)
   Definition scan_ok (st : lstate) (toks : list ltoken) (stop : lstop) (st' : lstate) : Prop :=
-    (stop = StopEOB /\ cond_ok st' /\ length (l_names st') = length (l_names st)) \/
-    (stop = StopError /\ ends_error toks).
+    Forall Q toks /\
+    ((stop = StopEOB /\ cond_ok st' /\ length (l_names st') = length (l_names st)) \/
+     (stop = StopError /\ ends_error toks)).
 
   Lemma ends_error_app a b : ends_error b -> ends_error (a ++ b).
   Proof. intros (pre & tk & -> & H). exists (a ++ pre), tk. rewrite app_assoc. auto. Qed.
   Lemma ends_error_cons a b : ends_error b -> ends_error (a :: b).
   Proof. apply (ends_error_app [a]). Qed.
+
+  Hypothesis Q_step : forall st b, cond_ok st -> b_rest b <> [] -> bytes_ok (b_rest b) ->
+    match lex_step st b with STok tk _ _ => Q tk | _ => True end.
 
   Definition incl_ok (k : Z) (incl : list bytes -> lstate -> Z -> list ltoken * lstop * lstate) : Prop :=
     forall files st line, cond_ok st -> depth st = k ->
@@ -156,8 +164,10 @@ Section LT.
   Proof.
     intros Hk Hinc. induction fuel as [|f IH]; intros st b Hf Hc Hb Hd; [lia|].
     cbn [Lexer.lex_buf]. destruct (b_rest b) as [|c0 r0] eqn:Er.
-    - left. auto.
-    - pose proof (lex_step_ok st b Hc ltac:(rewrite Er; discriminate) ltac:(rewrite Er; exact Hb)) as Hs.
+    - split; [constructor | left; auto].
+    - assert (Hne : b_rest b <> []) by (rewrite Er; discriminate).
+      assert (Hbb : bytes_ok (b_rest b)) by (rewrite Er; exact Hb).
+      pose proof (lex_step_ok st b Hc Hne Hbb) as Hs. pose proof (Q_step st b Hc Hne Hbb) as Hq.
       destruct (lex_step st b) as [st' b'|tk st' b'|toks stop st' l|st' files line' b']; cbn [step_ok] in Hs.
       + destruct Hs as (Hc' & Hn & Hl & Hb'). rewrite Er in Hl.
         specialize (IH st' b' ltac:(cbn [length] in *; lia) Hc' Hb' ltac:(unfold depth in *; rewrite Hn; exact Hd)).
@@ -165,19 +175,23 @@ Section LT.
       + destruct Hs as (Hc' & Hn & Hl & Hb'). rewrite Er in Hl.
         specialize (IH st' b' ltac:(cbn [length] in *; lia) Hc' Hb' ltac:(unfold depth in *; rewrite Hn; exact Hd)).
         destruct (lex_buf do_include f st' b') as [[[toks stop] st2] l]. unfold scan_ok in *. rewrite Hn in IH.
+        destruct IH as [HQ IH]. split; [constructor; assumption|].
         destruct IH as [H | [H1 H2]]; [left; exact H | right; split; [exact H1 | apply ends_error_cons; exact H2]].
-      + right. exact Hs.
+      + destruct Hs as (-> & tk & -> & Ht). split; [constructor; [apply Q_err; exact Ht | constructor]|].
+        right. split; [reflexivity|]. exists [], tk. auto.
       + destruct Hs as (Hc' & Hn & Hdp & Hl & Hb'). rewrite Er in Hl.
         destruct (Hinc ltac:(lia)) as (incl & -> & Hok).
         assert (Hd' : depth st' = k + 1) by (unfold depth in *; rewrite Hn; lia).
         pose proof (Hok files st' line' Hc' Hd') as Hi.
         destruct (incl files st' line') as [[toks stop] st4].
-        destruct Hi as [(-> & Hc4 & Hn4) | (-> & He)]; [|right; split; [reflexivity | exact He]].
+        destruct Hi as [HQ1 Hi].
+        destruct Hi as [(-> & Hc4 & Hn4) | (-> & He)]; [|split; [exact HQ1 | right; split; [reflexivity | exact He]]].
         assert (Hn5 : length (l_names (pop_frame st4)) = length (l_names st)).
         { cbn [pop_frame l_names]. rewrite Hn in Hn4. destruct (l_names st4); cbn in *; lia. }
         specialize (IH (pop_frame st4) b' ltac:(cbn [length] in *; lia) ltac:(exact Hc4) Hb' ltac:(unfold depth; rewrite Hn5; exact Hd)).
         destruct (lex_buf (Some incl) f (pop_frame st4) b') as [[[toks2 stop2] st6] l].
-        unfold scan_ok in *. rewrite Hn5 in IH.
+        unfold scan_ok in *. rewrite Hn5 in IH. destruct IH as [HQ2 IH].
+        split; [apply Forall_app; split; assumption|].
         destruct IH as [H | [H1 H2]]; [left; exact H | right; split; [exact H1 | apply ends_error_app; exact H2]].
   Qed.
 
@@ -188,7 +202,7 @@ Section LT.
     incl_ok k (fun files st line => lex_files scan_file files st line).
   Proof.
     intros Hk Hscan files. induction files as [|f rest IH]; intros st line Hc Hd; cbn [Lexer.lex_files].
-    - left. auto.
+    - split; [constructor | left; auto].
     - set (st1 := set_name st (Some f)).
       assert (Hn1 : length (l_names st1) = length (l_names st)).
       { unfold depth in Hd. cbn. destruct (l_names st); [cbn in Hd; lia | reflexivity]. }
@@ -199,22 +213,25 @@ Section LT.
         assert (Hd3 : depth st3 = k) by (unfold depth in *; rewrite Hn3; exact Hd).
         pose proof (Hscan st3 content Hc3 (FS_ok _ _ Ef) Hd3) as Hs.
         destruct (scan_file st3 content) as [[[toks stop] st4] l].
-        destruct Hs as [(-> & Hc4 & Hn4) | (-> & He)]; [|right; split; [reflexivity | exact He]].
+        destruct Hs as [HQ1 Hs].
+        destruct Hs as [(-> & Hc4 & Hn4) | (-> & He)]; [|split; [exact HQ1 | right; split; [reflexivity | exact He]]].
         set (st5 := add_ev (pop_open st4) (LvClose f)).
         assert (Hc5 : cond_ok st5) by (intros bol; apply Hc4).
         assert (Hn5 : length (l_names st5) = length (l_names st)) by (rewrite <- Hn3; exact Hn4).
         assert (Hd5 : depth st5 = k) by (unfold depth in *; rewrite Hn5; exact Hd).
         specialize (IH st5 l Hc5 Hd5).
         destruct (lex_files scan_file rest st5 l) as [[toks2 stop2] st6].
-        unfold scan_ok in *.
+        unfold scan_ok in *. destruct IH as [HQ2 IH]. split; [apply Forall_app; split; assumption|].
         destruct IH as [(-> & Hc6 & Hn6) | (-> & He)]; [|right; split; [reflexivity | apply ends_error_app; exact He]].
         left. split; [reflexivity|]. split; [exact Hc6|]. rewrite Hn6. exact Hn5.
       + destruct (emit (add_ev (add_ev st1 (LvOpen f)) (LvClose f)) line TkError (Some (err_bad_include, Some f, line))) as [tk st2] eqn:Ee.
-        right. split; [reflexivity|]. exists [], tk. split; [reflexivity|].
-        pose proof (emit_tok (add_ev (add_ev st1 (LvOpen f)) (LvClose f)) line TkError (Some (err_bad_include, Some f, line))) as H. rewrite Ee in H. apply H.
+        pose proof (emit_tok (add_ev (add_ev st1 (LvOpen f)) (LvClose f)) line TkError (Some (err_bad_include, Some f, line))) as H. rewrite Ee in H.
+        split; [constructor; [apply Q_err; apply H | constructor]|].
+        right. split; [reflexivity|]. exists [], tk. split; [reflexivity | apply H].
       + destruct (emit st1 line TkError (Some (err_bad_include, Some f, line))) as [tk st2] eqn:Ee.
-        right. split; [reflexivity|]. exists [], tk. split; [reflexivity|].
-        pose proof (emit_tok st1 line TkError (Some (err_bad_include, Some f, line))) as H. rewrite Ee in H. apply H.
+        pose proof (emit_tok st1 line TkError (Some (err_bad_include, Some f, line))) as H. rewrite Ee in H.
+        split; [constructor; [apply Q_err; apply H | constructor]|].
+        right. split; [reflexivity|]. exists [], tk. split; [reflexivity | apply H].
   Qed.
 
   (* ---- every nesting level ---- *)
